@@ -18,7 +18,10 @@ import tempfile
 
 HOME = os.path.dirname(os.path.dirname(os.path.abspath(__file__)))
 EXTRA = {"C08-m1": ["C13"], "C06-m1": ["C07"], "C02-m2": ["C06"], "C13-m2": ["C14"], "C11-m2": ["C14", "C13"], "C14-m1": ["C13"],
-         "C14-m2": ["C13"], "C19-m1": ["C05"], "C01-m1": ["C09"], "C17-m2": ["C11"], "C10-m1": [], "C09-m1": []}
+         "C14-m2": ["C13"], "C19-m1": ["C05"], "C01-m1": ["C09"], "C17-m2": ["C11"], "C10-m1": [], "C09-m1": [],
+         "C08-m3": ["C12"], "C10-m3": ["C12"], "C13-m3": ["C12"], "C08-m4": ["C04"], "C01-m3": ["C03"], "C01-m4": ["C15"], "C03-m3": ["C10"],
+         "C13-m4": [], "C15-m3": ["C14"], "C09-m4": ["C08"], "C19-m4": ["C05"], "C19-m3": ["C04"], "C14-m3": ["C13"], "C14-m4": ["C13"],
+         "C16-m3": ["C17"], "C16-m4": ["C17"], "C06-m3": ["C07"], "C06-m4": ["C07"]}
 
 
 def sh(cmd, **kw):
